@@ -577,11 +577,14 @@ impl Xot {
 
     /// Iterator over the child nodes of this node, in reverse order.
     pub fn reverse_children(&self, node: Node) -> impl Iterator<Item = Node> + '_ {
-        node.get()
-            .children(self.arena())
-            .rev()
-            .take_while(|n| self.arena[*n].get().is_normal())
-            .map(Node::new)
+        // walk back from the last child with the category-aware accessors;
+        // reversing indextree's children iterator does not terminate
+        let mut current = self.last_child(node);
+        std::iter::from_fn(move || {
+            let node = current?;
+            current = self.previous_sibling(node);
+            Some(node)
+        })
     }
 
     fn normal_filter(&self) -> impl Fn(&indextree::NodeId) -> bool + '_ {
